@@ -502,13 +502,15 @@ class C05(Check):
     trusted_base = (
         'hand-written model lean/CssVerif/Model/Tok.lean of Tokenizer.tokenize / _repl / helper.normalize / the '
         'error-report suffix, tied to the source by the differential correspondence of this run',
+        'hand-written model lean/CssVerif/Model/TokPush.lean of the generator with push-back (self._pushed), tied by the '
+        'correspondence of consumer scripts of this run',
         'translator tools/gen/c05_productions.py + tools/gen/relib.py (regex text -> Re term through CPython\'s own '
         're._parser); cross-checked each run against Tokenizer._expand_macros and the compiled matchers',
         'sre-faithfulness of Re.first (list-of-successes semantics) — validated each run by the Re-level '
         'differential on every generated pattern',
     )
     assumptions = (
-        'Tokenizer._pushed is empty (tokens pushed back by a caller are outside tokenize; see C12)',
+        'the consumer calls Tokenizer.push only while the generator is suspended at a yield (Model/TokPush.lean)',
         'str.lower() produces ASCII only from A-Z, U+212A and U+0130 (checked exhaustively over all code points '
         'each run); its results are compared with ASCII words only',
         'int(x, 16) on hex digits followed by ASCII white space',
@@ -564,6 +566,8 @@ class C05(Check):
             ctx.notes['helpers_skipped'] = repr(e)
         ctx.phase(self.corr_specs, ctx)
         ctx.phase(self.oracle_classify, ctx)
+        ctx.phase(self.corr_lex2, ctx)
+        ctx.phase(self.corr_push, ctx)
         ctx.phase(self.oracle_escape_spellings, ctx)
         ctx.phase(self.oracle_completion, ctx)
         ctx.phase(self.oracle_errors, ctx)
@@ -766,6 +770,7 @@ class C05(Check):
                 lines.append('tok %d %d %s' % (full, doc, enc(text)))
                 cases.append((text, full, doc, kind))
         out = ctx.driver(lines, timeout=1500) if ctx.model_ok else [None] * len(lines)
+        pend = {}
         for (text, full, doc, kind), m in zip(cases, out):
             try:
                 toks = impl_tokens(text, full, doc)
@@ -788,12 +793,34 @@ class C05(Check):
                     ctx.dist['type:' + str(t[0])] += 1
                 got = 'DONE | ' + show_tokens(toks)
                 self.oracle_shrunk(ctx, text, full, doc, toks)
+                other = pend.pop((text, doc), None)
+                if other is None:
+                    pend[(text, doc)] = toks
+                else:
+                    self.oracle_full_partial(ctx, text, doc, toks if full else other, other if full else toks)
             if m is not None:
                 head, mt = parse_reply(m)
                 mine = ('DONE | ' + show_tokens(mt)) if head.startswith('DONE') else head
                 if mine.strip() != got.strip():
                     ctx.disagree('tokenize', {'text': enc(text), 'repr': repr(text), 'full': full, 'doComments': doc},
                                  got, mine)
+
+    def oracle_full_partial(self, ctx, text, doc, tf, tp):
+        """theorem full_sheet_completion, on the implementation: full-sheet mode yields the partial-sheet tokens, or
+        a common prefix and ONE completed STRING / URI / COMMENT at the position of the partial-sheet token there"""
+        f = tf[:-1] if tf and tf[-1][0] == 'EOF' else tf
+        if f == tp:
+            return
+        i = 0
+        while i < len(f) and i < len(tp) and f[i] == tp[i]:
+            i += 1
+        ok = (len(f) == i + 1 and i < len(tp) and f[i][0] in (('STRING', 'URI', 'COMMENT') if doc else ('STRING', 'URI'))
+              and (f[i][2], f[i][3]) == (tp[i][2], tp[i][3]))
+        if not ok:
+            ctx.violate('full-sheet mode: an unterminated comment, string or url( is completed at the end of input',
+                        {'text': enc(text), 'repr': repr(text), 'full': True, 'doComments': doc},
+                        {'fullsheet': [list(t) for t in f[i:i + 3]], 'partial': [list(t) for t in tp[i:i + 3]],
+                         'common_prefix': i})
 
     def oracle_shrunk(self, ctx, text, full, doc, toks):
         """run the oracle; a violation that is not a known finding is minimised (delta debugging on the text)"""
@@ -976,6 +1003,111 @@ class C05(Check):
                                 {'expected': wexp, 'got': wgot}, known=known)
 
     # -- escape spellings inside names: every name-bearing class x code point x digit spelling x terminator x position
+    # -- lexeme separation for all classes: the theorem's statement against the implementation -------------
+    def corr_lex2(self, ctx):
+        """`lexeme_separation_all` says: for well-formed lexeme lists the MODEL yields `expectedAll` (comments
+        filtered when off). Here the Lean definitions (`Lex2.WF` by `decide`, `render2`, `expectedAll`) are evaluated
+        by the driver on generated lists and compared with the Python rendering and with what the IMPLEMENTATION
+        yields for that text."""
+        from harness import c05_lex2
+        rng = ctx.sub_rng('lex2')
+        lines, cases = [], []
+        for _ in range(ctx.n(2500, 40000)):
+            words, text, exp = c05_lex2.g_list(rng)
+            for doc in (True, False):
+                lines.append('lex2 %d %s' % (doc, ' '.join(words)))
+                cases.append((words, text, exp, doc))
+        out = ctx.driver(lines) if ctx.model_ok else []
+        clause = 'a text produced from known CSS tokens with unambiguous separators is recovered'
+        for (words, text, exp, doc), m in zip(cases, out):
+            head, _, rest = m.partition(' |')
+            hw = head.split()
+            want = [tv for tv in exp if doc or tv[0] != 'COMMENT']
+            ctx.case(key=('lex2', text, doc), nontrivial=True, kind='lex2')
+            for w in words:
+                ctx.dist['lex2:' + w.split(',')[0]] += 1
+            if len(hw) != 2 or hw[0] != '1' or dec(hw[1]) != text:
+                ctx.disagree('lexeme list: well-formedness / rendering (python generator vs Lean Lex2.WF, render2)',
+                             {'words': words, 'text': enc(text)}, '1 ' + enc(text), head)
+                continue
+            mexp = []
+            for w in rest.split():
+                typ, val = w.split(':')
+                mexp.append((typ, dec(val)))
+            if mexp != want:
+                ctx.disagree('lexeme list: expected tokens (python generator vs Lean expectedAll)',
+                             {'words': words, 'text': enc(text), 'doc': doc}, repr(want), repr(mexp))
+                continue
+            for full in (False, True):      # lexeme_separation_all / lexeme_separation_all_fullsheet
+                try:
+                    got = [(t[0], t[1]) for t in impl_tokens(text, full, doc)]
+                except Exception as e:   # noqa
+                    ctx.violate('tokenising any text terminates', {'text': enc(text), 'repr': repr(text)}, repr(e))
+                    continue
+                want2 = mexp + [('EOF', '')] if full else mexp
+                if got != want2:
+                    ctx.violate(clause, {'text': enc(text), 'full': full, 'doComments': doc, 'repr': repr(text)},
+                                'lexemes %r: expected %r, got %r' % (words, want2, got))
+
+    # -- the generator with push-back (Model/TokPush.lean) ----------------------------------------------------
+    def corr_push(self, ctx):
+        """consumer scripts of next() / push(k fresh tokens) on the real generator and on the model; on the
+        implementation side also the theorems' statements: text tokens undisturbed, pushed tokens at most once"""
+        from cssutils.tokenize2 import Tokenizer
+        rng = ctx.sub_rng('push')
+        fixed = ['', 'a', 'a b', '/*c*/a', 'a/*c*/', '/*c*/', '@charset "x"; a', '\xef\xbb\xbfa{b:c}', '"x', 'url(x',
+                 'a /*c*/ /*d*/ b', '/* x']
+        lines, cases = [], []
+        for i in range(ctx.n(2500, 30000)):
+            text = rng.choice(fixed) if rng.random() < 0.35 else g_sheet(rng, rng.random() < 0.5)[0][:rng.randint(0, 30)]
+            full, doc = rng.random() < 0.5, rng.random() < 0.5
+            script = [rng.choice(['n', 'n', 'n', 'n', 'p1', 'p2', 'p0']) for _ in range(rng.randint(1, 16))]
+            if rng.random() < 0.3:
+                script += ['n'] * 6
+            lines.append('push %d %d %s %s' % (full, doc, enc(text), '.'.join(script)))
+            cases.append((text, full, doc, script))
+        out = ctx.driver(lines) if ctx.model_ok else [None] * len(lines)
+        for (text, full, doc, script), m in zip(cases, out):
+            tk = Tokenizer(doComments=doc)
+            outs, texts, pushed_out, ctr = [], [], [], 0
+            try:
+                with time_limit(5.0):
+                    g = tk.tokenize(text, fullsheet=full)
+                    pure = [tuple(t) for t in Tokenizer(doComments=doc).tokenize(text, fullsheet=full)]
+                    for a in script:
+                        if a == 'n':
+                            try:
+                                t = next(g)
+                            except StopIteration:
+                                outs.append('-')
+                                continue
+                            if t[0] == 'PUSHED':
+                                outs.append('P:%X' % t[1])
+                                pushed_out.append(t[1])
+                            else:
+                                outs.append('T:%s:%s:%d:%d' % (t[0], enc(t[1]), t[2], t[3]))
+                                texts.append(tuple(t))
+                        else:
+                            k = int(a[1:])
+                            tk.push(*[('PUSHED', ctr + j, 0, 0) for j in range(k)])
+                            ctr += k
+            except Exception as e:   # noqa
+                ctx.violate('tokenising any text terminates (and does not raise)',
+                            {'text': enc(text), 'repr': repr(text), 'full': full, 'doComments': doc, 'script': script},
+                            repr(e))
+                continue
+            ctx.case(key=('push', text, full, doc, tuple(script)), nontrivial=any(a != 'n' for a in script),
+                     kind='push')
+            got = ' '.join(outs)
+            w = {'text': enc(text), 'repr': repr(text), 'full': full, 'doComments': doc, 'script': '.'.join(script)}
+            if texts != pure[:len(texts)]:
+                ctx.violate('push-back does not disturb the tokens of the text', w,
+                            {'yielded': texts[:6], 'pure': pure[:6]})
+            elif len(set(pushed_out)) != len(pushed_out) or any(x >= ctr for x in pushed_out):
+                ctx.violate('a pushed token is yielded at most once', w, {'pushed_out': pushed_out})
+            if m is not None and m.strip() != got:
+                ctx.disagree('generator with push-back', w, got, m)
+
     def oracle_escape_spellings(self, ctx):
         cps = [0xE9, 0xC9, 0xAB, 0xB5, 0xF6, 0xDF, 0xA0, 0xFFFD, 0xABCD, 0x1F600, 0x10FFFF, 0x41, 0x6B, 0x3BB, 0x20AC,
                0xB, 0x7A]
